@@ -174,6 +174,19 @@ class SpecMixin:
         sp = cur_fr.parent
         prev = other.push_frame(cur_fr.module, cur_fr.func, parent=sp if sp in other.frames else parent)
         other.frame.vars.update(cur_fr.vars)
+        # locals that did not exist yet in the other state (assigned since: loop items, loop indices) resolve to their current values;
+        # a local that existed there keeps the value it had there (old(x) / at_entry(x) of a local is its earlier value)
+        known = set()
+        ofr = other.frames.get(other.frame.parent) if other.frame.parent else None
+        while ofr is not None:
+            known |= set(ofr.vars)
+            ofr = other.frames.get(ofr.parent) if ofr.parent else None
+        fr_ = st.frames.get(cur_fr.parent) if cur_fr.parent else None
+        while fr_ is not None:
+            for n_, v_ in fr_.vars.items():
+                if n_ not in known and n_ not in other.frame.vars:
+                    other.frame.vars[n_] = v_
+            fr_ = st.frames.get(fr_.parent) if fr_.parent else None
         nq, npc = len(other.qhyps), len(other.pc)
         try:
             rs = self.ev(node, other)
